@@ -23,7 +23,15 @@ def key(tier):
 
 
 def select(tier):
-    """(path, argv) jobs"""
+    """(path, argv) jobs on corpus files (kept for the passes that only need files)"""
+    return [(j["path"], j["argv"]) for j in plan(tier) if j["kind"] == "corpus"]
+
+
+def plan(tier):
+    """the observed runs: corpus files x styles, per-rule documented option values on the rule's own fixtures,
+    commented / dedented / squeezed variants of corpus files"""
+    import optharvest, ruletable
+
     fs = corpus.files()
     r = vlib.rng("trace")
     ex = [f for f in fs if "/styles/code_examples/" in f or "/styles/" in f and f.count("/") < 6]
@@ -31,26 +39,110 @@ def select(tier):
     fixed = [f for f in fs if ".fixed" in os.path.basename(f)]
     rest = [f for f in fs if f not in set(inputs) and f not in set(fixed) and f not in set(ex)]
     jobs = []
+
+    def add(path, argv=(), kind="corpus", **kw):
+        jobs.append(dict(path=path, argv=list(argv), kind=kind, **kw))
+
     if tier == "thorough":
         for f in fs:
-            jobs.append((f, []))
+            add(f)
         for f in fs:
-            jobs.append((f, ["--style", "jcl"]))
+            add(f, ["--style", "jcl"])
         for f in r.sample(fs, 600):
-            jobs.append((f, ["--style", "indent_only"]))
+            add(f, ["--style", "indent_only"])
+        var_files = sorted(set(inputs + ex))
+        n_opt_rule, n_opt_gen = 10 ** 6, 10 ** 6
     else:
-        pick = r.sample(inputs, 170) + r.sample(fixed, 40) + r.sample(rest, 30) + r.sample(ex, min(len(ex), 12))
-        for f in sorted(set(pick)):
-            jobs.append((f, []))
-        for f in r.sample(sorted(set(pick)), 70):
-            jobs.append((f, ["--style", "jcl"]))
+        pick = sorted(set(r.sample(inputs, 170) + r.sample(fixed, 40) + r.sample(rest, 30) + r.sample(ex, min(len(ex), 12))))
+        for f in pick:
+            add(f)
+        for f in r.sample(pick, 70):
+            add(f, ["--style", "jcl"])
+        var_files = r.sample(inputs + ex, 50)
+        n_opt_rule, n_opt_gen = 90, 90
+    # documented option values
+    oh = optharvest.load()
+    rt = ruletable.by_id()
+    opt_jobs = []
+    for rid, sets in sorted(oh["per_rule"].items()):
+        fx = [f for f in optharvest.fixtures_for(rid, rt) if f.endswith("test_input.vhd")]
+        for s_ in sets:
+            for f in fx[:1]:
+                opt_jobs.append((f, rid, s_))
+    gen_jobs = []
+    for rid, row in sorted(rt.items()):
+        if row["deprecated"] or not row["phase"]:
+            continue
+        fx = [f for f in optharvest.fixtures_for(rid, rt) if f.endswith("test_input.vhd")]
+        if not fx:
+            continue
+        for a in row["configuration"]:
+            if a in ("indent_style", "indent_size", "phase", "disable", "fixable", "severity", "user_error_message"):
+                continue
+            for v in oh["by_option"].get(a, []):
+                gen_jobs.append((fx[0], rid, {a: v}))
+    # prefix / suffix exceptions cut out of tokens the rule really targets (derived inside the worker)
+    der = []
+    for rid, row in sorted(rt.items()):
+        if row["deprecated"] or not row["phase"] or "suffix_exceptions" not in row["configuration"]:
+            continue
+        fx = [f for f in optharvest.fixtures_for(rid, rt) if f.endswith("test_input.vhd")]
+        if fx:
+            der.append((fx[0], rid))
+    n_der = len(der) if tier == "thorough" else int(os.environ.get("VERIF_NDER", "40"))
+    for f, rid in (der if len(der) <= n_der else r.sample(der, n_der)):
+        add(f, kind="derived", rule=rid)
+    for f, rid, s_ in (opt_jobs if len(opt_jobs) <= n_opt_rule else r.sample(opt_jobs, n_opt_rule)) + (gen_jobs if len(gen_jobs) <= n_opt_gen else r.sample(gen_jobs, n_opt_gen)):
+        add(f, kind="option", rule=rid, options=s_)
+    for f in var_files:
+        for vk in ("comment0", "dedent", "squeeze", "dedent_squeeze"):
+            add(f, kind="variant", variant=vk)
     # minimised corpus of inputs that failed before runs first (kept under /verif/corpus_min)
     cm = os.path.join(vlib.VERIF, "corpus_min")
     if os.path.isdir(cm):
         for f in sorted(os.listdir(cm)):
             if f.endswith(".vhd"):
-                jobs.insert(0, (os.path.join(cm, f), []))
+                jobs.insert(0, dict(path=os.path.join(cm, f), argv=[], kind="corpus"))
     return jobs
+
+
+def make_variant(lines, kind, r):
+    """text-level, meaning-preserving variants that put comments and code where the fixtures never do"""
+    import c05
+
+    if kind == "comment0":
+        out = []
+        for i, l in enumerate(c05.mutate(lines, "none", r)):
+            out.append(l)
+        res, skip, off = [], False, False
+        for n, line in enumerate(lines):
+            if "vhdl_comp_off" in line:
+                off = True
+            opens, closes = line.count("/*"), line.count("*/")
+            plain = not skip and not off and opens == 0 and closes == 0 and not line.lstrip().startswith("#") and "vsg_" not in line and "synthesis" not in line and "pragma" not in line
+            if opens > closes:
+                skip = True
+            elif closes > opens:
+                skip = False
+            if off and "vhdl_comp_on" in line:
+                off = False
+            if plain and not skip and line.strip():
+                k = r.random()
+                if k < 0.35:
+                    res.append("-- K%d own line, column 0" % n)
+                elif k < 0.5:
+                    res.append("    -- K%d own line, indented" % n)
+                if "--" not in line and r.random() < 0.5:
+                    line = line + " -- K%dt" % n
+            res.append(line)
+        return res
+    if kind == "dedent":
+        return [l.lstrip(" \t") if r.random() < 0.7 else l for l in lines]
+    if kind == "squeeze":
+        return c05.mutate(lines, "squeeze", r)
+    if kind == "dedent_squeeze":
+        return [l.lstrip(" \t") if r.random() < 0.7 else l for l in c05.mutate(lines, "squeeze", r)]
+    return lines
 
 
 def _run(job):
@@ -73,10 +165,38 @@ def _check(tp):
 def compute(tier, d):
     import roletable, ruletable
 
+    import yaml
+
     roles = roletable.load()
     jobs = []
-    for k, (f, argv) in enumerate(select(tier)):
-        jobs.append({"path": f, "argv": argv, "trace_path": os.path.join(d, "t%05d.trace" % k), "roles": roles, "refix": 4 if tier == "thorough" else 2})
+    r = vlib.rng("variants")
+    for k, j in enumerate(plan(tier)):
+        path, argv = j["path"], list(j["argv"])
+        if j["kind"] == "option":
+            cf = os.path.join(d, "o%05d.yaml" % k)
+            with open(cf, "w") as fh:
+                fh.write(yaml.safe_dump({"rule": {j["rule"]: j["options"]}}))
+            argv += ["-c", cf]
+        elif j["kind"] == "derived":
+            pass
+        elif j["kind"] == "variant":
+            try:
+                lines = corpus.read_lines(path)
+            except Exception:
+                continue
+            if lines and lines[-1] == "":
+                lines = lines[:-1]
+            import random as _random
+
+            v = make_variant(lines, j["variant"], _random.Random(j["variant"] + ":" + os.path.relpath(path, vlib.REPO)))  # the same variant of a file in every tier and seed
+            if v == lines:
+                continue
+            path = os.path.join(d, "v%05d.vhd" % k)
+            with open(path, "w") as fh:
+                fh.write("\n".join(v) + "\n")
+        jobs.append({"path": path, "argv": argv, "trace_path": os.path.join(d, "t%05d.trace" % k), "roles": roles, "refix": 4 if tier == "thorough" else 2,
+                     "label": {x: j[x] for x in j if x not in ("path", "argv")}, "source": j["path"], "keep_text": j["kind"] == "variant",
+                     "derive": j.get("rule") if j["kind"] == "derived" else None, "derive_cfg": os.path.join(d, "d%05d.yaml" % k)})
     t0 = time.time()
     with Pool(vlib.NCPU) as p:
         res = p.map(_run, jobs, chunksize=2)
@@ -85,7 +205,22 @@ def compute(tier, d):
         chk = dict((tp, (rc, so, se)) for tp, rc, so, se in p.map(_check, [j["trace_path"] for j in jobs if os.path.exists(j["trace_path"])], chunksize=4))
     t2 = time.time()
     for j, o in zip(jobs, res):
-        o["rel"] = os.path.relpath(o["path"], vlib.REPO) if o["path"].startswith(vlib.REPO) else os.path.relpath(o["path"], vlib.VERIF)
+        src = j.get("source", o["path"])
+        o["rel"] = os.path.relpath(src, vlib.REPO) if src.startswith(vlib.REPO) else os.path.relpath(src, vlib.VERIF)
+        lab = j.get("label", {})
+        if lab.get("kind") == "derived":
+            o["rel"] += " {%s: %s}" % (lab["rule"], json.dumps(o.get("derived_options"), default=repr))
+            o["argv"] = [a for a in o["argv"] if not a.endswith(".yaml") and a != "-c"]
+        elif lab.get("kind") == "option":
+            o["rel"] += " {%s: %s}" % (lab["rule"], json.dumps(lab["options"], default=repr))
+            o["argv"] = [a for a in o["argv"] if not a.endswith(".yaml") and a != "-c"]
+        elif lab.get("kind") == "variant":
+            o["rel"] += " <%s variant>" % lab["variant"]
+            try:
+                o["variant_text"] = open(o["path"]).read() if (o.get("records") is not None and (o["status"] != "ok" or o.get("reread_diff") or o.get("refix_changes") or o.get("reread_rejected"))) else None
+            except OSError:
+                pass
+        o["label"] = lab
         c = chk.get(j["trace_path"])
         if c is None:
             continue
